@@ -286,7 +286,7 @@ def lower_term_returns(cx):
     cx.check(not disp, key + ":no-dispatch", "the lower-term branch reaches no state-changing callee (found: %s)" % sorted(set(disp))[:5], site)
 
 
-@obligation("VOTE.leader_gate", ["C02"], floor=1, kind="who-may-write + caller guard",
+@obligation("VOTE.leader_gate", ["C02", "C05", "C06"], floor=1, kind="who-may-write + caller guard",
             why="leadership without a (joint) majority of votes")
 def leader_gate(cx):
     ws = [s for s in cx.prog.writes.get(STATE, []) if s.kind == "write" and "stmt" in s.data and write_value(cx, s) == ("enum", "raft::raft::StateRole", "Leader")]
